@@ -140,7 +140,7 @@ def hs_fault(job):
 # ---------------------------------------------------------------- data-phase histories
 TERMS = ["read/close_notify", "read/data+close_notify", "read/eof", "read/data+eof", "read/reset",
          "read/fatal40", "read/fatal80", "read/warning", "write/epipe", "close/ok", "close/fatal",
-         "close/eof", "close/warning", "read/data+fatal"]
+         "close/eof", "close/warning", "read/data+fatal", "read/close_notify+epipe", "read/data+close_notify+epipe"]
 
 
 def data_history(job):
@@ -216,7 +216,13 @@ def data_history(job):
             arrive = 5
         wantdesc = 0
         if api == "read":
-            if cond == "close_notify":
+            if cond == "close_notify+epipe":
+                # the peer says close_notify and is gone: the answering close_notify of the reader meets a broken pipe,
+                # which changes nothing about the orderly end of the data
+                p.close(pname)
+                es.schedule = FaultSchedule("send", 1, "epipe")
+                cond = "close_notify"
+            elif cond == "close_notify":
                 p.close(pname)
             elif cond == "eof":
                 for q in p.pipes:
